@@ -342,6 +342,21 @@ func runC13(t *testing.T, sc *Scenario) Result {
 		res.Violate("infra", "boot", obs.BootErr)
 		return res
 	}
+	for _, a := range sc.Actors {
+		for i, o := range a.Ops {
+			if o.K == "send" && i+1 < len(a.Ops) {
+				switch a.Ops[i+1].K {
+				case "close":
+					res.fault("client-closes-right-after-hello", 1)
+				case "reset":
+					res.fault("client-resets-right-after-hello", 1)
+				}
+				if len(o.Cuts) > 0 {
+					res.probe("hellos-cut-into-segments", 1)
+				}
+			}
+		}
+	}
 	bySrc := map[string][]map[string]interface{}{}
 	for _, e := range obs.Events {
 		if e.M["category"] == "https" || e.M["https.ja3-digest"] != nil {
